@@ -50,6 +50,11 @@ func (goHolder) Boom() *goHolder {
 	return p
 }
 
+// the same field name at different positions of two struct types reached through one interface-typed field
+type petCat struct{ Name, Sound string }
+type petDog struct{ Owner, Name string }
+type petHolder struct{ Pet interface{} }
+
 type nInt int
 type nBool bool
 type nFloat float64
@@ -241,6 +246,12 @@ func decodeVal(x *sx.Sexp) interface{} {
 			return goHolder{Arr: [2]string{"x<", "y"}}
 		case "ifacemap":
 			return map[interface{}]int{1: 10, "a": 11, [2]int{1, 2}: 12}
+		case "nanmap1":
+			return map[float64]string{math.NaN(): "n<"}
+		case "nanmap2":
+			return map[[1]float64][]int{{math.NaN()}: {2}}
+		case "pets":
+			return []petHolder{{Pet: petCat{"Tom", "m"}}, {Pet: petDog{"Ann", "Rex"}}, {Pet: petCat{"Kit", "p"}}}
 		}
 		panic("unknown goval " + x.Xs[1].A)
 	case "named":
